@@ -18,7 +18,7 @@ if not NATIVE:
     from symx.oset import OSet
     instrument.install({
         "insights.core.dr": {"strings": False, "order": True, "names": {"set": OSet}},
-        "insights.core.filters": {"strings": False, "order": False},
+        "insights.core.filters": {"strings": True, "order": False},
         "insights.cleaner.filters": {"strings": True},
         "insights.cleaner": {"strings": True, "order": True},
         "insights.core.spec_factory": {"strings": True},
@@ -274,6 +274,109 @@ def make_kept(n, nf):
     return fn
 
 
+# ------------------------------------------------------------------ O2b: the same on real text, filters with regex metacharacters
+META_FILTERS = ["a.b", "x+", "(a", "a|b", "^a", "b$", "[a", "a\\", "a*", "?b", "-a", "--"]
+TEXT_ALPHA = "ab.x+(|^$[\\*?-"
+TEXT_PATHS = ["filter_content", "clean_content", "apply_filters"]
+
+
+def make_kept_text(nlines, maxlen):
+    def fn(en):
+        which = TEXT_PATHS[en.choice("path", len(TEXT_PATHS))]
+        flts = [META_FILTERS[en.choice("flt0", len(META_FILTERS))]]
+        if en.flag("two_filters"):
+            f2 = META_FILTERS[en.choice("flt1", len(META_FILTERS))]
+            if f2 == flts[0]:
+                raise core.Abort()
+            flts.append(f2)
+        n = 1 + en.choice("n", nlines)
+        lines = [sstr.fresh_str(en, "t%d" % i, 1 + en.choice("len%d" % i, maxlen), TEXT_ALPHA) for i in range(n)]
+        case = lambda mv: {"kind": "kept-text", "path": which, "filters": flts, "lines": [mv.str(x) for x in lines]}  # noqa
+        en.note_sample(case)
+        if which == "filter_content":
+            out = AllowFilter.filter_content(list(lines), dict((f, 10000) for f in flts))
+        elif which == "clean_content":
+            cl = CL.Cleaner(K.Cfg(obfuscate=False), {}, "h.example.org")
+            cl.obfuscate["password"] = None
+            out = cl.clean_content(list(lines), allowlist=dict((f, 10000) for f in flts))
+        else:
+            with REG:
+                g = build_graph()
+                for f in flts:
+                    F.add_filter(g["R"], f)
+                out = list(F.apply_filters(g["R"], list(lines)))
+        T = lambda x: x if isinstance(x, bool) else truth(x)  # noqa
+        exp = [i for i in range(n) if T(f_or(*[sstr.f_contains(lines[i], f) for f in flts]))]
+        got = [i for i in range(n) if any(o is lines[i] for o in out)]
+        en.must_hold(got == exp and len(out) == len(exp), "kept-lines", case,
+                     detail="%s kept lines %s (%d returned); the lines containing a filter string literally are %s" % (which, got, len(out), exp))
+    return fn
+
+
+# ------------------------------------------------------------------ O5: post-filter on load, whatever the size of the file
+class _SizedOS(object):
+    """os for spec_factory during one load: stat() reports an engine-chosen size, everything else is the real os"""
+
+    def __init__(self, size):
+        self.size = size
+        self.path = os.path
+
+    def stat(self, p):
+        class St(object):
+            st_size = self.size
+        return St()
+
+    def __getattr__(self, n):
+        return getattr(os, n)
+
+
+class _Reader(object):
+    def __init__(self, lines):
+        self.lines = lines
+
+    def __enter__(self):
+        return self
+
+    def __exit__(self, *a):
+        return False
+
+    def __iter__(self):
+        return iter([l + "\n" for l in self.lines])
+
+    def seek(self, n):
+        pass
+
+
+LOAD_LINES = ["first f1", "nothing here", "f1 again", "other", "last nothing"]
+
+
+def load_with_size(g, size, host):
+    ctx = HostContext(root=_scratch()) if host else HostArchiveContext(root=_scratch())
+    prov = SF.TextFileProvider("file", root=_scratch(), ds=g["I1"], ctx=ctx)
+    saved = (SF.os, SF.safe_open)
+    SF.os = _SizedOS(size)
+    SF.safe_open = lambda path, mode="r", **kw: _Reader(LOAD_LINES)
+    try:
+        return list(prov.load())
+    finally:
+        SF.os, SF.safe_open = saved
+
+
+def make_load():
+    def fn(en):
+        with REG:
+            g = build_graph()
+            F.add_filter(g[["R", "I1", "P"][en.choice("on", 3)]], "f1")
+            size = en.fresh_int("size", 0, 2 ** 40)
+            case = lambda mv: {"kind": "load", "size": mv.int(size)}  # noqa
+            en.note_sample(case)
+            out = load_with_size(g, size, False)
+            bad = [l for l in out if "f1" not in l]
+            en.must_hold(not bad, "kept-lines", case, detail="a file of this size is loaded with lines that contain no filter string: %r" % (bad,))
+            en.must_hold("f1 again" in out, "kept-lines", case, detail="the last matching line was dropped")
+    return fn
+
+
 # ------------------------------------------------------------------ O3: the grep argument
 def grep_contract(args):
     """patterns and files grep would see for this argv (options start with '-', '-e X' supplies a pattern, '--' ends options)"""
@@ -424,6 +527,14 @@ def obligations(tier):
                    bounds={"lines": 5 if thorough else 4, "filters": 3 if thorough else 2, "containment": "every boolean matrix", "budgets": "symbolic ints in [1,3]"},
                    stubs=["a line is an object answering `filter in line` with a symbolic boolean (every matrix is realisable by real strings for pairwise independent filter strings, which is what replay uses)"],
                    encoded=enc[2:6], budget_s=900 if thorough else 150, replay="kept", check_sample=True),
+        Obligation("O2b-kept-lines-text", make_kept_text(2, 3 if thorough else 2), ["kept-lines"],
+                   desc="the three in-process filter paths on real text: filter strings with regex metacharacters / leading dashes, symbolic lines over the same characters: kept = the lines containing a filter string literally",
+                   bounds={"filters": META_FILTERS, "filters per run": "1-2", "lines": "1-2 symbolic strings of 1-%d chars over %r" % (3 if thorough else 2, TEXT_ALPHA), "budgets": "10000 (not reached)"},
+                   encoded=enc[2:6], budget_s=600 if thorough else 120, replay="kept", check_sample=True),
+        Obligation("O5-load-any-size", make_load(), ["kept-lines"],
+                   desc="TextFileProvider.load under an archive context for a filterable spec, with the file size reported by os.stat a symbolic integer (both sides of MAX_CONTENT_SIZE): every loaded line contains a filter string",
+                   bounds={"size": "symbolic int in [0, 2^40]", "lines": LOAD_LINES, "filter registered on": ["spec", "implementation", "parser"]},
+                   stubs=["os.stat / safe_open of spec_factory during the load: engine-chosen size, fixed lines"], encoded=[SF.TextFileProvider.load], budget_s=60, replay="kept", check_sample=True),
         Obligation("O3-grep-argument", make_grep(3 if thorough else 2, 2), ["grep-argument"],
                    desc="the argv built for the host-side grep -F pre-filter denotes exactly the filter set under grep's argument contract",
                    bounds={"filters": "1-%d symbolic strings of 1-2 chars over %r, pairwise different" % (3 if thorough else 2, FILTER_ALPHA), "providers": ["TextFileProvider", "CommandOutputProvider"]},
@@ -469,6 +580,29 @@ def _native(case):
             exp = [i for i in range(n) if any(M[i])]
             return [] if kept == exp else ["apply_filters kept %s, matching lines are %s" % (kept, exp)]
         return kept_oracle(n, flts, Mf, bd, kept, bool)
+    if kind == "kept-text":
+        lines, flts = case["lines"], case["filters"]
+        if case["path"] == "filter_content":
+            out = AllowFilter.filter_content(list(lines), dict((f, 10000) for f in flts))
+        elif case["path"] == "clean_content":
+            cl = CL.Cleaner(K.Cfg(obfuscate=False), {}, "h.example.org")
+            out = cl.clean_content(list(lines), allowlist=dict((f, 10000) for f in flts))
+        else:
+            g = build_graph()
+            for f in flts:
+                F.add_filter(g["R"], f)
+            try:
+                out = list(F.apply_filters(g["R"], list(lines)))
+            except Exception as ex:  # noqa
+                return ["apply_filters raised %r for filters %r" % (ex, flts)]
+        exp = [l for l in lines if any(f in l for f in flts)]
+        return [] if list(out) == exp else ["%s kept %r; the lines containing a filter string literally are %r (filters %r)" % (case["path"], list(out), exp, flts)]
+    if kind == "load":
+        g = build_graph()
+        F.add_filter(g["R"], "f1")
+        out = load_with_size(g, case["size"], False)
+        bad = [l for l in out if "f1" not in l]
+        return (["a file of size %d is loaded with lines that contain no filter string: %r" % (case["size"], bad)] if bad else []) + ([] if "f1 again" in out else ["the last matching line was dropped"])
     if kind == "grep":
         fd = dict((f, 10000) for f in case["filters"])
         args = provider_args(case["provider"], fd)
